@@ -6,6 +6,14 @@ func init() {
 	const txs = "internal/storage/ledgerstore/transactions.go"
 	const bal = "internal/storage/ledgerstore/balances.go"
 	addMutants(
+		Mutant{Property: "C04", Name: "aggregated-balances-pit-on-effective-date", File: bal,
+			Old: "Apply(filterPIT(q.Options.Options.PIT, \"insertion_date\"))", New: "Apply(filterPIT(q.Options.Options.PIT, \"effective_date\"))", Expect: "R04d:(*internal/storage/ledgerstore.Store).GetAggregatedBalances$2:query:latest-move#1:cut-off"},
+		Mutant{Property: "C04", Name: "accounts-pit-column-unrelated-chain", File: acc,
+			Old: "Apply(filterPIT(q.PIT, \"insertion_date\")).", New: "Apply(filterPIT(q.PIT, \"accounts.insertion_date\")).", Expect: "none", Benign: true},
+		Mutant{Property: "C04", Name: "sql-account-volumes-cut-on-effective-date", File: migrationSQL,
+			Old: "                   where (_before is null or s.insertion_date <= _before)", New: "                   where (_before is null or s.effective_date <= _before)", Expect: "R04d:sql:get_all_account_volumes:latest-move#1:cut-off"},
+		Mutant{Property: "C04", Name: "sql-balance-before-becomes-supplied", File: bal,
+			Old: "query.TableExpr(\"get_account_balance(?, ?, ?) as balance\", store.name, address, asset)", New: "query.TableExpr(\"get_account_balance(?, ?, ?, now()::timestamp) as balance\", store.name, address, asset)", Expect: "R04d:sql:get_account_balance:latest-move#1:cut-off"},
 		Mutant{Property: "C04", Name: "aggregated-balances-latest-by-effective-date", File: bal,
 			Old: "Order(\"account_address\", \"asset\", \"moves.seq desc\").", New: "Order(\"account_address\", \"asset\", \"moves.effective_date desc\", \"moves.seq desc\").", Expect: "R04d:(*internal/storage/ledgerstore.Store).GetAggregatedBalances$2:query:latest-move"},
 		Mutant{Property: "C04", Name: "aggregated-balances-oldest-move", File: bal,
